@@ -327,7 +327,7 @@ class Coq:
     def _vo_ok(self, f):
         v = os.path.join(COQ, f)
         vo = v + 'o'
-        return os.path.exists(vo) and os.path.getmtime(vo) >= os.path.getmtime(v)
+        return os.path.exists(v) and os.path.exists(vo) and os.path.getmtime(vo) >= os.path.getmtime(v)
 
     def _lemma_at(self, f, line):
         try:
@@ -372,7 +372,7 @@ class Coq:
         name = name or ('%s_interval' % self.pid)
         path = os.path.join(COQ, 'Cases', name + '.v')
         with open(path, 'w') as f:
-            f.write('From Coq Require Import Reals.\nFrom Interval Require Import Tactic.\nFrom SG Require Import %s.\nLocal Open Scope R_scope.\n' % imports)
+            f.write('From Coq Require Import Reals List.\nFrom Interval Require Import Tactic.\nFrom SG Require Import %s.\nImport ListNotations.\nLocal Open Scope R_scope.\n' % imports)
             for k, g in enumerate(goals):
                 f.write('Goal %s.\nProof. idtac "GOAL %d". %s Qed.\n' % (g[0], k, g[1]))
         rc, out, dt = sh('timeout 900 coqc -Q . SG -w -notation-overridden,-ambiguous-paths Cases/%s.v' % name, cwd=COQ, timeout=930)
